@@ -159,6 +159,51 @@ class Translator:
                 isinstance(e.func.value, ast.Constant) and isinstance(e.func.value.value, str) and len(e.args) == 1 and \
                 not e.keywords:
             return '(joinM (cStr %s) %s)' % (json.dumps(e.func.value.value), self.expr(e.args[0], env, cname))
+        if getattr(self, 'effect_mode', None) == 'parser':
+            def is_call(n, mod, name):
+                return isinstance(n, ast.Call) and isinstance(n.func, ast.Attribute) and n.func.attr == name and \
+                    isinstance(n.func.value, ast.Name) and n.func.value.id == mod
+            def fmt(n, lit, k):
+                return isinstance(n, ast.BinOp) and isinstance(n.op, ast.Mod) and isinstance(n.left, ast.Constant) and \
+                    n.left.value == lit and (isinstance(n.right, ast.Tuple) and len(n.right.elts) == k if k > 1
+                                             else not isinstance(n.right, ast.Tuple))
+            # pattern + '%s(%s)' % (re.escape(raw), part)
+            if isinstance(e, ast.BinOp) and isinstance(e.op, ast.Add) and fmt(e.right, '%s(%s)', 2) and \
+                    is_call(e.right.right.elts[0], 're', 'escape'):
+                return '(ptGroupM %s (reEscapeM %s) %s)' % (self.expr(e.left, env, cname),
+                                                             self.expr(e.right.right.elts[0].args[0], env, cname),
+                                                             self.expr(e.right.right.elts[1], env, cname))
+            # re.compile('^%s$' % part) / re.compile('^%s%s$' % (pattern, re.escape(raw)))
+            if is_call(e, 're', 'compile') and len(e.args) == 1 and fmt(e.args[0], '^%s$', 1):
+                return '(reCompileSegM %s)' % self.expr(e.args[0].right, env, cname)
+            if is_call(e, 're', 'compile') and len(e.args) == 1 and fmt(e.args[0], '^%s%s$', 2) and \
+                    is_call(e.args[0].right.elts[1], 're', 'escape'):
+                return '(reCompileFullM %s (reEscapeM %s))' % (self.expr(e.args[0].right.elts[0], env, cname),
+                                                               self.expr(e.args[0].right.elts[1].args[0], env, cname))
+            if isinstance(e, ast.Subscript) and isinstance(e.slice, ast.Slice) and isinstance(e.value, ast.Name) and \
+                    e.value.id in env:
+                sl = e.slice
+                if sl.lower is None and sl.upper is None and isinstance(sl.step, ast.Constant) and sl.step.value == 2:
+                    return '(stepSlice2M %s)' % env[e.value.id]
+                if sl.step is None and sl.lower is not None and sl.upper is not None:
+                    return '(strSliceM %s %s %s)' % (env[e.value.id], self.expr(sl.lower, env, cname), self.expr(sl.upper, env, cname))
+                if sl.step is None and sl.lower is not None and sl.upper is None:
+                    return '(strSliceFromM %s %s)' % (env[e.value.id], self.expr(sl.lower, env, cname))
+            if isinstance(e, ast.BinOp) and isinstance(e.op, ast.Mult):
+                return '(mulM %s %s)' % (self.expr(e.left, env, cname), self.expr(e.right, env, cname))
+            if isinstance(e, ast.BinOp) and isinstance(e.op, ast.FloorDiv):
+                return '(floordivM %s %s)' % (self.expr(e.left, env, cname), self.expr(e.right, env, cname))
+            if isinstance(e, ast.Call) and isinstance(e.func, ast.Name) and e.func.id in getattr(self, 'parser_emitted', ()) and \
+                    not e.keywords:
+                names, binds = [], []
+                for a in e.args:
+                    self.fresh += 1
+                    names.append('a%d' % self.fresh)
+                    binds.append(self.expr(a, env, cname))
+                inner = '(%s %s)' % (e.func.id, ' '.join(names))
+                for nm, val in reversed(list(zip(names, binds))):
+                    inner = '(bindM %s fun %s => %s)' % (val, nm, inner)
+                return inner
         if isinstance(e, ast.BinOp) and isinstance(e.op, (ast.Add, ast.Sub)):
             return '(%s %s %s)' % ('addM' if isinstance(e.op, ast.Add) else 'subM', self.expr(e.left, env, cname),
                                    self.expr(e.right, env, cname))
@@ -1206,8 +1251,8 @@ class Translator:
         if isinstance(s, ast.Assign) and len(s.targets) == 1 and isinstance(s.targets[0], ast.Tuple) and \
                 isinstance(s.value, ast.Tuple) and len(s.targets[0].elts) == len(s.value.elts) and \
                 all(isinstance(t, ast.Name) for t in s.targets[0].elts) and \
-                all(isinstance(v, ast.Constant) or (isinstance(v, ast.Name) and
-                                                    v.id not in [t.id for t in s.targets[0].elts]) for v in s.value.elts):
+                all(isinstance(v, ast.Constant) or (isinstance(v, ast.List) and not v.elts) or
+                    (isinstance(v, ast.Name) and v.id not in [t.id for t in s.targets[0].elts]) for v in s.value.elts):
             # a, b = c1, c2 with constants (or names that are not assigned here) on the right: the order of the single
             # assignments cannot matter
             singles = [ast.Assign(targets=[t], value=v) for t, v in zip(s.targets[0].elts, s.value.elts)]
@@ -1244,6 +1289,13 @@ class Translator:
             s = ast.Assign(targets=[ast.Name(id=tgt, ctx=ast.Store())],
                            value=ast.Call(func=ast.Name(id='__setitem__', ctx=ast.Load()),
                                           args=[ast.Name(id=tgt, ctx=ast.Load()), s.targets[0].slice, s.value], keywords=[]))
+        if getattr(self, 'effect_mode', None) == 'parser' and isinstance(s, ast.Expr) and isinstance(s.value, ast.Call) and \
+                isinstance(s.value.func, ast.Attribute) and s.value.func.attr == 'insert' and len(s.value.args) == 2 and \
+                isinstance(s.value.func.value, ast.Name) and s.value.func.value.id in getattr(self, 'write_only', ()):
+            # xs.insert(i, x) on a list that is never read: the two arguments are evaluated (they may raise), nothing else
+            return '(bindM %s fun _ =>\n      (bindM %s fun _ =>\n      %s))' % (
+                self.expr(s.value.args[0], env, cname), self.expr(s.value.args[1], env, cname),
+                self.block(rest, env, cname, end, brk))
         if isinstance(s, ast.Expr) and isinstance(s.value, ast.Call) and isinstance(s.value.func, ast.Attribute) and \
                 s.value.func.attr == 'append' and isinstance(s.value.func.value, ast.Name) and \
                 s.value.func.value.id in env and len(s.value.args) == 1:
@@ -1373,7 +1425,7 @@ def translate_checkers(repo):
     return '\n'.join(out) + '\n', [('checker', c, []) for c in checkers], [('checker', c, r) for c, r in unchecked]
 
 
-PARSER_FUNCTIONS = ['get_tag_indices']
+PARSER_FUNCTIONS = ['get_tag_indices', 'compile_regex']
 
 
 AUDIT_MSG_CLASSES = ['PoliciesNopMsg', 'PoliciesUidMsg', 'PoliciesDescriptionMsg', 'PoliciesCountMsg']
@@ -1478,6 +1530,13 @@ def translate_parser(repo):
             f = tr.helpers[fname]
             params = [a.arg for a in f.args.args]
             tr.attrs, tr.fresh = set(), 0
+            tr.effect_mode = 'parser'
+            tr.parser_emitted = set(done)
+            # local lists that are only ever the receiver of .insert(...): never read, so only the evaluation of what is inserted matters
+            reads = [n.id for n in ast.walk(f) if isinstance(n, ast.Name) and isinstance(n.ctx, ast.Load)]
+            inserts = [n.func.value.id for n in ast.walk(f) if isinstance(n, ast.Call) and isinstance(n.func, ast.Attribute) and
+                       n.func.attr == 'insert' and isinstance(n.func.value, ast.Name)]
+            tr.write_only = {x for x in set(inserts) if reads.count(x) == inserts.count(x)}
             env = {p: '(pure p_%s)' % p for p in params}
             body = tr.block(f.body, env, None)
             out.append('/-- `vakt.parser.%s` -/' % fname)
